@@ -23,6 +23,17 @@ FORMS = [
 ]
 
 
+COLLIDE = [
+    "struct S { float q; float r; float a; }\nstruct S0 { int zz; float m0; int m7; }\nstruct S1 { float x; float y; }\nstruct T { float cnt; }\n"
+    "export function pre(S s, S0 t, S1 u) -> float { return s.q + t.m0 + u.y; }",
+    "float a; float b; float c; float d; float x0; float x1; float x2; float p0; float p1; float t; float i; float j; float v; float w; float n; float s; float total; float calls;\n"
+    "int counter; int scale; float x; float y;\nexport function pre2() -> float { return a + x0 + p0; }",
+    "function h(float q) -> float { return q; }\nfunction k(int a, int b, int c) -> int { return a; }\nfunction pick(float a) -> float { return a; }\n"
+    "export function f(float z) -> float { return h(z) + pick(z); }\nexport function m(float z) -> float { return z; }\nexport function w(int z) -> int { return k(z, z, z); }",
+    "int[4] g0; float3 g1; int[2][2] g2; float4x4 g3;\nexport function f0(int q) -> int { g0[1] = q; return g0[1]; }",
+]
+
+
 def wasm_programs(rng, n):
     import genwasm
     g = genwasm.WGen(rng)
@@ -64,10 +75,14 @@ def run(ctx):
             return [{"src": targets[(i + j * 7 + 1) % len(targets)][2], "opts": targets[(i + j * 7 + 1) % len(targets)][3]} for j in range(3)] + [{"src": "export function broken( { ", "opts": {}}], False
         if k == 3:
             return [{"src": targets[(i + j * 3 + 2) % len(targets)][2], "opts": targets[(i + j * 3 + 2) % len(targets)][3]} for j in range(8)], False
-        # the same source earlier with the other optimisation / wasm setting, then a rejected program
-        o2 = dict(targets[i][3]); o2["optimize"] = not o2.get("optimize", False)
-        return [{"src": targets[i][2], "opts": o2}, {"src": "export function f(int a) -> int { return b; }", "opts": {}}], False
-    NH = 5
+        if k == 4:
+            # the same source earlier with the other optimisation / wasm setting, then a rejected program
+            o2 = dict(targets[i][3]); o2["optimize"] = not o2.get("optimize", False)
+            return [{"src": targets[i][2], "opts": o2}, {"src": "export function f(int a) -> int { return b; }", "opts": {}}], False
+        # sources that use the NAMES the targets use with another meaning: structures S / S0 / S1 with other members, globals named like the
+        # targets' parameters and locals, functions f / h / k with other signatures -- nothing of an earlier compilation may leak into a later one
+        return [{"src": COLLIDE[j], "opts": {"optimize": bool(j % 2)}} for j in range(len(COLLIDE))], False
+    NH = 6
     runs = {}     # (target index) -> list of (seed, hist kind, result)
     for seed in seeds:
         jobs = []
@@ -105,7 +120,7 @@ def run(ctx):
     ctx.cov["programs"] = len(targets)
     ctx.cov["rule"] = ("targets: programs of the C01 generator at both optimisation settings, of the C04 vector generator, scalar straight-line modules compiled with the WebAssembly "
                        "option, and hand-written sources using the syntax the generators never produce (unnamed and __optional arguments, overloads differing in an unnamed argument, prototypes, "
-                       "annotated structures, octal / hexadecimal literals, an import line); each compiled in %d processes with different PYTHONHASHSEED values x 5 histories (fresh process; the same source compiled just before; three other sources and a "
+                       "annotated structures, octal / hexadecimal literals, an import line); each compiled in %d processes with different PYTHONHASHSEED values x 6 histories (fresh process; the same source compiled just before; four sources that use the targets' names for structures, globals and functions with another meaning compiled before; three other sources and a "
                        "syntax error before; eight other sources before; the same source with the other optimisation setting and a rejected program before), always with a fresh Compiler object as the property states (a Compiler object is not reusable: its visitors keep state). Compared: InstructionPrinter listing, import list, global "
                        "list, WebAssembly bytes (text equality across all %d combinations per target); for unoptimised core targets the structural IR is also compared inside Coq with the "
                        "lowering model's output for the source. Distinct = distinct (source, options)." % (len(seeds), NH * len(seeds)))
